@@ -10,6 +10,8 @@ k=0
 for p in mutants/*.patch seeded/*/patch.diff; do
   k=$((k+1)); [ $(( (k - part_i) % part_n )) -eq 0 ] || continue
   case "$p" in mutants/*) id=$(basename "$p" | cut -c1-3);; *) id=$(basename "$(dirname "$p")" | cut -c1-3);; esac
+  # a seeded change recorded as "missed by its own property's check, caught by a neighbour's" names that neighbour
+  [ -f "$(dirname "$p")/check_with" ] && id=$(cat "$(dirname "$p")/check_with")
   [ "$(basename $p)" = "C18-m3-racy-latch.patch" ] && extra="VERIF_MIRI=1 VERIF_MIRI_SEEDS=8" || extra=""
   out=$(env $extra VERIF_MIN_REPLAYS=${REGRESS_MIN_REPLAYS:-0} VERIF_SCALE=${REGRESS_SCALE:-1} tools/mutant_wt.sh "$p" "$id" 2>&1 | tail -1)
   case "$out" in *rc=1) echo "caught  $p";; *) echo "MISSED  $p ($out)"; fail=1;; esac
